@@ -207,6 +207,12 @@ class Evaluator:
                     return tuple(_time.gmtime(s.ev(t[2][0])))      # pure stdlib function of a number (not auditok code)
                 except (TypeError, ValueError, OverflowError, OSError) as exc:
                     raise NotEvaluable(exc)
+            if name == 'splitext' and len(t[2]) == 1 and term_name(t[1]) in ('os.path.splitext', 'posixpath.splitext', 'ntpath.splitext'):
+                import os as _os
+                try:
+                    return tuple(_os.path.splitext(s.ev(t[2][0])))      # pure stdlib function of a path string (not auditok code)
+                except (TypeError, ValueError) as exc:
+                    raise NotEvaluable(exc)
             if name == 'divmod' and len(t[2]) == 2:
                 try:
                     return divmod(s.ev(t[2][0]), s.ev(t[2][1]))
@@ -230,11 +236,21 @@ class Evaluator:
                 except (IndexError, TypeError, ValueError) as exc:
                     raise NotEvaluable(exc)
             # indexing / slicing of a value that evaluates to a tuple (divmod, gmtime, literal tuples, slices of those)
-            if base[0] in ('tuple', 'list') or (base[0] == 'call' and term_name(base[1]).split('.')[-1] in ('divmod', 'gmtime')) or base[0] == 'sub':
+            if base[0] in ('tuple', 'list') or (base[0] == 'call' and term_name(base[1]).split('.')[-1] in ('divmod', 'gmtime', 'splitext')) or base[0] == 'sub':
                 try:
                     bv = s.ev(base) if base[0] not in ('tuple', 'list') else tuple(s.ev(x) for x in base[1])
                 except NotEvaluable:
                     bv = None
+                if isinstance(bv, str):
+                    idx = t[2]
+                    try:
+                        if idx[0] == 'slice':
+                            lo = s.ev(idx[1]) if idx[1] is not None else None
+                            hi = s.ev(idx[2]) if idx[2] is not None else None
+                            return bv[lo:hi]
+                        return bv[s.ev(idx)]
+                    except (IndexError, TypeError) as exc:
+                        raise NotEvaluable(exc)
                 if isinstance(bv, tuple):
                     idx = t[2]
                     try:
